@@ -75,13 +75,16 @@ func (d *dispatcher) VerifOnEvicted(fn func(shard int, key string)) {
 	for i, item := range d.list {
 		index := i
 		item.mu.Lock()
-		if fn == nil {
-			item.cache.OnEvicted = nil
-		} else {
-			item.cache.OnEvicted = func(key lru.Key, _ interface{}) {
+		// a callback pike itself may have installed keeps running after the observer
+		prev := item.cache.OnEvicted
+		if fn != nil {
+			item.cache.OnEvicted = func(key lru.Key, value interface{}) {
 				k, _ := key.(string)
 				// copy, the key may be a zero-copy view of caller's bytes
 				fn(index, string(append([]byte{}, k...)))
+				if prev != nil {
+					prev(key, value)
+				}
 			}
 		}
 		item.mu.Unlock()
